@@ -208,3 +208,73 @@ func suitableReturnsExactly(c *Ctx, S *ssa.Function) (string, string) {
 	_ = fmt.Sprint
 	return "", ""
 }
+
+// IdentifierPure (C16.O4 identifier.pure-function-of-id): shares are computed, checked and handed out per participant through
+// the BLS identifier of the participant's id; "participant i receives the share computed for i" needs that mapping to be a
+// function of the id alone. The module function(s) mapping a uint64 to a *bls.ID read and write no package-level variable of
+// the module (no table, cache or pool keyed by something coarser than the id), call no module function that does, and
+// return an object allocated by the call.
+func (c *Ctx) IdentifierPure(prop string) {
+	rule := "C16.O4 identifier.pure-function-of-id"
+	n := 0
+	for _, fn := range c.P.ModuleFuncs() {
+		if prog.IsTestish(prog.PkgPathOf(fn)) || fn.Blocks == nil || fn.Parent() != nil {
+			continue
+		}
+		sig := fn.Signature
+		if sig.Params().Len() != 1 || sig.Results().Len() != 1 || sig.Recv() != nil {
+			continue
+		}
+		if b, ok := sig.Params().At(0).Type().Underlying().(*types.Basic); !ok || b.Kind() != types.Uint64 {
+			continue
+		}
+		pt, ok := sig.Results().At(0).Type().(*types.Pointer)
+		if !ok || !namedIs(pt.Elem(), "github.com/herumi/bls-eth-go-binary/bls", "ID") {
+			continue
+		}
+		n++
+		bad := ""
+		pos := c.P.FuncPos(fn)
+		seen := map[*ssa.Function]bool{}
+		var scan func(f *ssa.Function, depth int)
+		scan = func(f *ssa.Function, depth int) {
+			if seen[f] || depth > 4 || f.Blocks == nil {
+				return
+			}
+			seen[f] = true
+			for _, g := range WithClosures(f) {
+				for _, b := range g.Blocks {
+					for _, ins := range b.Instrs {
+						for _, op := range ins.Operands(nil) {
+							if op == nil || *op == nil {
+								continue
+							}
+							if gl, ok := (*op).(*ssa.Global); ok && gl.Pkg != nil && prog.IsModulePath(gl.Pkg.Pkg.Path()) && bad == "" {
+								bad = "it uses the package-level variable " + gl.Name() + " of " + gl.Pkg.Pkg.Path()
+								pos = c.Pos(ins)
+							}
+						}
+						if ci, ok := ins.(ssa.CallInstruction); ok {
+							if cal := ci.Common().StaticCallee(); cal != nil && prog.InModule(cal) {
+								scan(cal, depth+1)
+							}
+						}
+					}
+				}
+			}
+		}
+		scan(fn, 0)
+		for _, ret := range an.Returns(fn) {
+			if _, isAlloc := an.Result(ret, 0).(*ssa.Alloc); !isAlloc && bad == "" {
+				bad = "it returns an object it did not allocate in this call: " + an.Term(an.Result(ret, 0))
+				pos = c.Pos(ret)
+			}
+		}
+		if bad != "" {
+			c.R.Fail(rule, Fn(fn), pos, "the mapping from participant ids to BLS identifiers is not a function of the id alone: "+bad+" (two ids that share an entry get one identifier, and a participant is handed the share computed for another)", "a fresh identifier built from the id, no package-level state", nil)
+		} else {
+			c.R.OK(rule, Fn(fn), c.P.FuncPos(fn), "the identifier is allocated by the call and built without package-level state")
+		}
+	}
+	c.R.Floor(rule, "functions mapping an id to a BLS identifier", n, 1)
+}
